@@ -35,12 +35,13 @@ ATTR = {
     ('cds', 'start'): ('c_start', 'int'), ('cds', 'end'): ('c_end', 'int'),
     ('tcfg', 'ref'): ('t_ref', 'range'), ('tcfg', 'region_2'): ('t_r2', 'range'),
     ('tcfg', 'region_1_length'): ('t_e1', 'int'), ('tcfg', 'region_3_length'): ('t_e3', 'int'),
+    ('variant', 'pos'): ('v_pos', 'int'), ('variant', 'ref'): ('v_ref_s', 'str'), ('variant', 'alt'): ('v_alt_s', 'str'),
 }
 # python annotation -> model type tag
 ANNOT = {'int': 'int', 'bool': 'bool', 'Strand': 'strand', 'Exon': 'exon', 'UIntRange': 'range', 'IntPatternBuilder': 'pt', 'CdsSeq': 'cds',
-         'TargetonConfig': 'tcfg', 'str': 'str', 'str | None': 'ostr', 'VariantType': 'vtype'}
+         'TargetonConfig': 'tcfg', 'str': 'str', 'str | None': 'ostr', 'VariantType': 'vtype', 'Variant': 'variant'}
 COQ_TYPE = {'int': 'Z', 'bool': 'bool', 'strand': 'strand', 'exon': 'exon', 'range': 'range', 'pt': 'pt', 'cds': 'cds_seq', 'tcfg': 'tcfg', 'unit': 'unit',
-            'str': 'string', 'ostr': '(option string)', 'vtype': 'vtype', 'strenum': 'string'}
+            'str': 'string', 'ostr': '(option string)', 'vtype': 'vtype', 'strenum': 'string', 'variant': 'variant'}
 # members of the IntEnum VariantType -> constructors of the model's vtype
 VTYPE_MEMBERS = {'INSERTION': 'VIns', 'DELETION': 'VDel', 'SUBSTITUTION': 'VSub', 'UNKNOWN': 'VUnknown'}
 
@@ -134,6 +135,10 @@ class Translator:
             for i, x in enumerate(e.values):
                 inner = [] if i > 0 else binds
                 lazy.append((self.expr(x, env, inner), [] if i == 0 else inner))
+            if all(t in ('bool', 'str', 'ostr') for (_, t), _ in lazy) and any(t != 'bool' for (_, t), _ in lazy) \
+                    and not (isinstance(e.op, ast.Or) and len(lazy) == 2 and lazy[1][0][1] == 'none'):
+                # `a and b` / `a or b` over strings used for their truth value only (callers use them as conditions)
+                lazy = [((self.truth(v, t), 'bool'), inner) for (v, t), inner in lazy]
             if any(inner for _, inner in lazy):
                 if any(t != 'bool' for (_, t), _ in lazy):
                     raise TransError('boolean operator on non-booleans')
@@ -193,6 +198,7 @@ class Translator:
             return ('(' + ' && '.join(terms) + ')' if len(terms) > 1 else terms[0]), 'bool'
         if isinstance(e, ast.IfExp):
             c, tc = self.expr(e.test, env, binds)
+            c, tc = self.truth(c, tc), 'bool'
             inner_a, inner_b = [], []
             a, ta = self.expr(e.body, env, inner_a)
             b, tb = self.expr(e.orelse, env, inner_b)
@@ -288,6 +294,17 @@ class Translator:
         raise TransError(f'expression {type(e).__name__}')
 
     @staticmethod
+    def truth(v, t):
+        """A value used as a condition."""
+        if t == 'bool':
+            return v
+        if t == 'str':
+            return f'(negb (sempty {v}))'
+        if t == 'ostr':
+            return f'(negb (onull {v}))'
+        raise TransError(f'truth value of a {t}')
+
+    @staticmethod
     def as_text(v, t):
         """How a value appears inside an f-string."""
         if t == 'int':
@@ -377,8 +394,7 @@ class Translator:
         if isinstance(st, ast.If):
             binds = []
             c, tc = self.expr(st.test, env, binds)
-            if tc != 'bool':
-                raise TransError('if on a non-boolean')
+            c, tc = self.truth(c, tc), 'bool'
             a, ta = self.block(st.body + ([] if self.ends(st.body) else rest), env)
             b, tb = self.block((st.orelse if st.orelse else []) + ([] if (st.orelse and self.ends(st.orelse)) else rest), env)
             t = self.join(ta, tb)
@@ -386,6 +402,19 @@ class Translator:
         if isinstance(st, ast.Match):
             binds = []
             v, tv = self.expr(st.subject, env, binds)
+            if tv == 'vtype':
+                arms, t = [], None
+                for case in st.cases:
+                    pat = case.pattern
+                    if not (isinstance(pat, ast.MatchValue) and isinstance(pat.value, ast.Attribute) and isinstance(pat.value.value, ast.Name)
+                            and pat.value.value.id == 'VariantType' and pat.value.attr in VTYPE_MEMBERS):
+                        raise TransError('match pattern on a VariantType')
+                    body, tb = self.block(case.body, env)
+                    t = self.join(t, tb)
+                    arms.append((VTYPE_MEMBERS[pat.value.attr], body))
+                if {a for a, _ in arms} != set(VTYPE_MEMBERS.values()):
+                    raise TransError('match on a VariantType does not cover every member')
+                return self.wrap(binds, 'match ' + v + ' with ' + ' | '.join(f'{a} => {b}' for a, b in arms) + ' end'), t
             if tv != 'int':
                 raise TransError('match on a non-integer')
             default, branches, t = None, [], None
@@ -463,6 +492,10 @@ class Translator:
                     if t == 'int':
                         self.out.append(f'Definition {cname(st.target.id)} : Z := {v}.\n')
                         self.consts[st.target.id] = (cname(st.target.id), 'int')
+                if isinstance(st, ast.Assign) and len(st.targets) == 1 and isinstance(st.targets[0], ast.Name) and st.targets[0].id.isupper() \
+                        and isinstance(st.value, ast.Constant) and isinstance(st.value.value, str) and st.targets[0].id in getattr(self, 'wanted_consts', ()):
+                    self.out.append(f'Definition {cname(st.targets[0].id)} : string := {coq_string(st.value.value)}%string.\n')
+                    self.consts[st.targets[0].id] = (cname(st.targets[0].id), 'str')
 
     # ------------------------------------------------------------ functions
     def function(self, node: ast.FunctionDef, key: str, coq_name: str, self_type: str | None):
@@ -521,9 +554,10 @@ class Translator:
         return COQ_TYPE[t]
 
 
-def translate(sources: dict[str, str], targets: list[tuple[str, str, str, str | None]]) -> str:
+def translate(sources: dict[str, str], targets: list[tuple[str, str, str, str | None]], wanted_consts: tuple = ()) -> str:
     """sources: {module: text}; targets: [(module, python name or Class.name, coq name, type tag of self or None)] in dependency order."""
     tr = Translator()
+    tr.wanted_consts = wanted_consts
     trees = {m: ast.parse(s) for m, s in sources.items()}
     tr.module_facts(trees)
     for mod, pyname, coq_name, self_type in targets:
